@@ -244,7 +244,7 @@ def run(ctx):
     ctx.part.sample({"leaves": [(n, e) for n, e, _a in LEAVES]})
     ctx.part.sample({"examples": [text(ts[i]) for i in (20, 500, len(ts) // 2, len(ts) - 1)]})
     ctx.part.sample({"macro_families": [p for p, _e in FAMILIES]})
-    ctx.rule = ("every term over {!, &&, ||, ?:} with <= 2 operator levels: level 1 over 14 leaves (true, false, one error leaf per failing mechanism x10, two non-boolean values), "
+    ctx.rule = ("every term over {!, &&, ||, ?:} with <= 2 operator levels: level 1 over 16 leaves (true, false, one error leaf per failing mechanism x12, two non-boolean values), "
                 "level 2 over level-<=1 terms on the reduced leaf set {T, F, E, N}" + (" including all ternary roots" if ctx.thorough else " (ternary roots with a reduced branch set)") +
                 "; every {T,F,E} list of length <= " + ("5" if ctx.thorough else "4") + " under four predicate families for all()/exists(); the swap differential on every pair; each under both runners, "
                 "level 1 also through celtypes.logical_*; a case whose reference outcome is UNSPEC (e.g. true && 1, !1) is counted but not compared")
